@@ -333,21 +333,27 @@ theorem orV_right {a b : Verdict} (h : b.isSome = true) : (orV a b).isSome = tru
 
 theorem pathVar_fires (input : Message) (p : Str)
     (h : input.fields.find? (fun f => f.name == p) = none ∨
-         ∃ f, input.fields.find? (fun f => f.name == p) = some f ∧ scalarPathKind f.kind = false) :
+         ∃ f, input.fields.find? (fun f => f.name == p) = some f ∧
+           (scalarPathKind f.kind = false ∨ f.card = .repeated ∨ f.card = .map)) :
     (pathVarCheck input p).isSome = true := by
   unfold pathVarCheck
   rcases h with h | ⟨f, hf, hk⟩
   · rw [h]; rfl
   · rw [hf]
-    have : isPathParamCompatible f.descKind = false := by
-      unfold Field.descKind
-      split
-      · rfl
-      · revert hk; cases f.kind <;> simp [scalarPathKind, isPathParamCompatible]
+    have : (isPathParamCompatible f.descKind && f.card != .repeated && f.card != .map) = false := by
+      rcases hk with hk | hk | hk
+      · have : isPathParamCompatible f.descKind = false := by
+          unfold Field.descKind
+          split
+          · rfl
+          · revert hk; cases f.kind <;> simp [scalarPathKind, isPathParamCompatible]
+        simp [this]
+      · simp [hk]
+      · simp [hk]
     simp [this]
 
 theorem methodCheck_fires (rq : Request) (meth : Method) (b : Breach) (file : Str)
-    (hb : b ∈ methodBreaches rq file meth) (hr : b.rule ≠ .pathVarNotSingular) :
+    (hb : b ∈ methodBreaches rq file meth) :
     (methodCheck rq meth).isSome = true := by
   unfold methodBreaches at hb
   by_cases hcfg : meth.hasConfig = true
@@ -365,14 +371,13 @@ theorem methodCheck_fires (rq : Request) (meth : Method) (b : Breach) (file : St
         | some f =>
           simp only [hfnd] at hbp
           rcases List.mem_append.mp hbp with h1 | h1
-          · refine pathVar_fires input p (Or.inr ⟨f, hfnd, ?_⟩)
+          · refine pathVar_fires input p (Or.inr ⟨f, hfnd, Or.inl ?_⟩)
             by_cases hk : scalarPathKind f.kind = true
             · simp [hk] at h1
             · simpa using hk
-          · exfalso
+          · refine pathVar_fires input p (Or.inr ⟨f, hfnd, Or.inr ?_⟩)
             by_cases hc : (f.card == .repeated || f.card == .map) = true
-            · simp only [hc, if_true, List.mem_singleton] at h1
-              apply hr; rw [h1]
+            · simpa using hc
             · simp [hc] at h1
       · -- a field both path and query
         obtain ⟨q, hq, _⟩ := List.mem_map.mp hb
